@@ -663,6 +663,39 @@ func mirrorNoTarget(c *Ctx, op string) {
 			}
 		}
 	}
+	// a source copy mislabelled by letter case (base58 is case-sensitive: the swapped spelling names another, unknown ware):
+	// asked for that id from a single-object source — whose address does not depend on the hash — the mirror fails and the
+	// target stays without it
+	{
+		swapped := strings.Map(func(r rune) rune {
+			switch {
+			case r >= 'a' && r <= 'z':
+				return r - 32
+			case r >= 'A' && r <= 'Z':
+				return r + 32
+			}
+			return r
+		}, id.Hash)
+		mono := api.WarehouseLocation("file://" + storedWarePath("ca", wh, id))
+		for _, tk := range []string{"ca", "file"} {
+			tdir := filepath.Join(base, "case-"+tk)
+			os.MkdirAll(tdir, 0755)
+			asked := api.WareID{Type: id.Type, Hash: swapped}
+			g3, e3, p3 := safeCall(func() (api.WareID, error) {
+				return fn.mirror(ctx, asked, whAddr(tk, tdir), []api.WarehouseLocation{mono}, rio.Monitor{})
+			})
+			c.H("mirror-caseswap:" + strings.Fields(resTok(g3, e3, p3))[0])
+			_, there := os.Stat(storedWarePath(tk, tdir, asked))
+			switch {
+			case p3 != "":
+				c.PropFail("mirror-panic", "mirror of a case-swapped id panicked: "+p3, op)
+			case e3 == nil:
+				c.PropFail("mirror-accepted-bad", fmt.Sprintf("Mirror(%s) from a source whose object hashes to %s (the same letters in other case) answered success (%s)", asked, id, g3), op)
+			case there == nil:
+				c.PropFail("mirror-accepted-bad", fmt.Sprintf("a failed Mirror(%s) left an object at the target's address for that id", asked), op)
+			}
+		}
+	}
 	got, merr, pan := safeCall(func() (api.WareID, error) {
 		return fn.mirror(ctx, id, "", []api.WarehouseLocation{whAddr("ca", wh)}, rio.Monitor{})
 	})
